@@ -16,6 +16,7 @@ static ldb_dbopt_t g_opt;
 static ldb_lru_t *g_cache = NULL;
 static ldb_bloom_t *g_bloom = NULL;
 static int g_cmp_kind = 0;
+static int g_tablehex = 0;  /* print the raw bytes of new tables up to this size */
 static int g_verify = 0;   /* verify_checksums for every read */
 #define MAXSNAP 256
 static const ldb_snapshot_t *g_snaps[MAXSNAP];
@@ -111,6 +112,15 @@ int __wrap_ldb_versions_apply(ldb_versions_t *vset, ldb_edit_t *edit, ldb_mutex_
   for (i = 0; i < edit->new_files.length; i++) {
     const meta_entry_t *e = edit->new_files.items[i];
     dump_table(vset->table_cache, e->meta.number, e->meta.file_size);
+    if (g_tablehex > 0 && e->meta.file_size <= (uint64_t)g_tablehex) {
+      /* raw bytes of small tables, for the independent decode by the extracted model reader */
+      char fname[LDB_PATH_MAX]; FILE *f;
+      if (ldb_table_filename(fname, sizeof(fname), vset->dbname, e->meta.number) && (f = fopen(fname, "rb")) != NULL) {
+        uint8_t *buf = malloc(e->meta.file_size + 1); size_t n = fread(buf, 1, e->meta.file_size, f);
+        printf("TABLEHEX %llu ", (unsigned long long)e->meta.number); put_hex(stdout, buf, n); putchar('\n');
+        free(buf); fclose(f);
+      }
+    }
   }
   return rc;
 }
@@ -174,6 +184,7 @@ static void parse_opts(int argc, char **argv) {
     else if (!strcmp(argv[i], "reuse_logs")) g_opt.reuse_logs = v;
     else if (!strcmp(argv[i], "paranoid")) g_opt.paranoid_checks = v;
     else if (!strcmp(argv[i], "verify")) g_verify = v;
+    else if (!strcmp(argv[i], "tablehex")) g_tablehex = v;
     else if (!strcmp(argv[i], "max_open_files")) g_opt.max_open_files = v;
     else if (!strcmp(argv[i], "comparator")) { g_cmp_kind = v; if (v == 1) g_opt.comparator = &g_rev; else if (v == 2) g_opt.comparator = &g_ci; }
   }
